@@ -64,7 +64,33 @@ func TestCLIEnum(t *testing.T) {
 			}
 		}
 	}
-	hx.Exhaustive("CLI: {extract, cat} x cache {dir, http, raw} x --cache-repair {default, false} x upstream {directory, router(http lacking the chunk, directory), failover(refused|raw)} with a valid, an invalid and an absent cache entry; chunk-server --store-file reloaded by SIGHUP x cache {dir, http} x repair {default, false}")
+	// mount-index --store-file: reloads between a lone local directory and every kind of chain, and back
+	loneA := func() CLIConf { return CLIConf{Stores: []CLIStore{cs(cm("dir", 1, 1, 0))}} }
+	chains := []func() CLIConf{
+		func() CLIConf {
+			return CLIConf{Stores: []CLIStore{cs(cm("dir", 1, 1, 0))}, Cache: ccache(cm("dir", 0, 0, 0))}
+		},
+		func() CLIConf { return CLIConf{Stores: []CLIStore{cs(cm("dir", 1, 0, 0)), cs(cm("dir", 1, 1, 1))}} },
+		func() CLIConf { return CLIConf{Stores: []CLIStore{cs(cm("dir", 1, 1, 1), cm("dir", 1, 1, 1))}} },
+		func() CLIConf { return CLIConf{Stores: []CLIStore{cs(cm("http", 1, 1, 1))}} },
+		func() CLIConf {
+			return CLIConf{Stores: []CLIStore{cs(cm("http", 1, 0, 0)), cs(cm("dir", 1, 1, 1), cm("raw", 1, 1, 1))}, Cache: ccache(cm("http", 0, 0, 0))}
+		},
+	}
+	for i, chn := range chains {
+		for _, dirn := range []string{"lone-to-chain", "chain-to-lone"} {
+			a, b := loneA(), chn()
+			if dirn == "chain-to-lone" {
+				a, b = b, a
+			}
+			cl := &CLICase{Cmd: "mount", N: 1, Retry: 1, Conf: a, Reload: &b, Back: i%2 == 0}
+			n++
+			if !hx.Case(t, spec, Case{Mode: "cli", Seed: uint64(100 + n), CLI: cl}) {
+				return
+			}
+		}
+	}
+	hx.Exhaustive("CLI: {extract, cat} x cache {dir, http, raw} x --cache-repair {default, false} x upstream {directory, router(http lacking the chunk, directory), failover(refused|raw)} with a valid, an invalid and an absent cache entry; chunk-server --store-file reloaded by SIGHUP x cache {dir, http} x repair {default, false}; mount-index --store-file reloaded by SIGHUP: lone local directory <-> {directory + cache, two directories, failover group, HTTP store, router + failover + HTTP cache}, half of them there and back")
 	hx.Note("cli_enumerated_cases", n)
 }
 
